@@ -83,7 +83,7 @@ CHECKS['C15'] = dict(engine='hypothesis/grdrv', technique='metamorphic property-
     text='Generated cases x ppm in (0,4096]: glyphs/attachments/associations identical to the NULL-font segment; origins and advances within 1e-5 x extent x scale of the linear scaling. Exploration level.',
     note='Trusted: tolerance bound (DESIGN 5/C15: 1e-5 x largest compared magnitude x scale); unhinted fonts only; second generator compares a justified second line (gr_slot_linebreak_before + gr_seg_justify) with font NULL and font P.', ref='5/C15')
 CHECKS['C19'] = dict(engine='hypothesis/grdrv (history command)', technique='property-based testing of generated linebreak/justify call sequences with a chain-integrity oracle and a confirmed watchdog',
-    text='Segments are cut into lines at generated cluster boundaries and justified with generated widths/flags/sub-ranges; after every call all line chains must hold the same '
+    text='Segments are cut into lines at generated cluster boundaries (2 cases in 3) or at any interior slots (1 in 3) and justified with generated widths/flags/sub-ranges; after every call all line chains must hold the same '
          'slots in the same order with prev the inverse, values finite, glyphs unchanged without a justification pass, sanitizers silent. Known finding KF2 excluded by construction. Exploration level.',
     note='Trusted: line-state observation in harness/drv_scenarios.h; watchdog confirmation (3x60 s).', ref='5/C19')
 
